@@ -100,7 +100,8 @@ def judge_record(rec):
             viol("schema-accepts-what-validator-rejects", doc.get("why") or "?", f"document {json.dumps(d)[:300]} is valid against the schema but validate() is false", d)
         elif sv and doc["vv"] and doc["refStrict"] == "N" and doc["ref"] == "Y":
             viol("schema-accepts-undeclared-key", "extra-key", f"document {json.dumps(d)[:300]} is valid against the schema but carries a key the type does not declare", d)
-        elif (not sv) and doc["refStrict"] == "Y" and doc["nullFree"] and doc["vv"]:
+        elif (not sv) and doc["refStrict"] == "Y" and doc["nullFree"] and doc["vv"] and doc.get("xs", True):
+            # (an exact member that the validator itself rejects in strict mode is C01's / C11's finding)
             b = best_match(errs)
             viol("schema-rejects-exact-member", cause_tag(errs), f"document {json.dumps(d)[:300]} is an exact, null-free member but the schema rejects it: {b.message[:160]}", d)
     return n, out
